@@ -79,7 +79,7 @@ func genC05(t *rapid.T) c05Case {
 	c.RPCs = genWorkload(t, c.Cfg, 3)
 	if rapid.IntRange(0, 2).Draw(t, "points") == 0 {
 		c.Cfg.Points = rapid.SliceOfNDistinct(rapid.SampledFrom([]string{"harness.Unmarshal.holding", "stream.rawWrite.beforeFrame", "stream.MsgSend.beforeFlush",
-			"manager.manageReader.beforeDispatch", "manager.terminate.beforeClose", "stream.checkFinished"}), 1, 2, func(s string) string { return s }).Draw(t, "pts")
+			"manager.manageReader.beforeDispatch", "manager.terminate.beforeClose", "stream.checkFinished", "manager.manageStream.enter"}), 1, 2, func(s string) string { return s }).Draw(t, "pts")
 		c.Cfg.PointLimit = 6
 		c.HoldPoints = rapid.Bool().Draw(t, "holdpoints")
 	}
